@@ -2,6 +2,6 @@ INIT Init
 NEXT Next
 CONSTANTS
   MaxLines = 3
-  MaxToks = 3
+  MaxToks = 2
 INVARIANTS RoundTripHolds WireValid EveryLineCarriesCode
 CHECK_DEADLOCK FALSE
